@@ -1,5 +1,98 @@
--- placeholder, theorems follow
-import Spec.Decode
+/-
+  C04 — smallest fitting symbol is chosen; overflow is reported, never truncated.
+  C05 — (in Props/C05.lean) error level never below the request; boosting keeps the version.
+  Property theorems only; helper lemmas live in Proofs/Sizing.lean.
+-/
+import Spec.Sizing
+import Model.Encoder
+import Proofs.Sizing
+
 namespace Props.C04
-theorem placeholder : True := trivial
+
+/-- what the specification sees of a model segment -/
+def info (eci : Bool) (s : Model.Segment) : Spec.SegInfo :=
+  { mode := s.mode, count := s.charCount,
+    eci := eci && s.mode == 4 && s.encoding != some "iso-8859-1" }
+
+/-- well-formed segment: a known mode and exactly the ISO number of payload bits for its character count -/
+def WF (s : Model.Segment) : Prop :=
+  s.mode ∈ [1, 2, 4, 8, 13] ∧ s.bits.length = Spec.payloadBits s.mode s.charCount
+
+/-- `make_segment` only produces well-formed segments (ISO 7.4.3–7.4.6 bit counts:
+    10·⌊n/3⌋+{0,4,7}, 11·⌊n/2⌋+{0,6}, 8n, 13n) -/
+theorem makeSegment_wf (data : List Nat) (mode : Option Nat) (enc : String) (s : Model.Segment)
+    (hm : mode ∈ [none, some 1, some 2, some 4, some 8, some 13])
+    (h : Model.makeSegment data mode enc = .ok s) : WF s := by
+  exact Proofs.Sizing.makeSegment_wf data mode enc s hm h
+
+/-- merging parts (`Segments.add_segment`) keeps every segment well-formed — this is where the
+    group-boundary condition of the merge is needed -/
+theorem addSegment_wf (segs : List Model.Segment) (s : Model.Segment)
+    (h1 : ∀ x ∈ segs, WF x) (h2 : WF s) : ∀ x ∈ Model.addSegment segs s, WF x := by
+  exact Proofs.Sizing.addSegment_wf segs s h1 h2
+
+theorem prepareData_wf (parts : List Model.Part) (segs : List Model.Segment)
+    (hm : ∀ p ∈ parts, p.mode ∈ [none, some 1, some 2, some 4, some 8, some 13])
+    (h : Model.prepareData parts = .ok segs) : ∀ x ∈ segs, WF x := by
+  exact Proofs.Sizing.prepareData_wf parts segs hm h
+
+/-- the model's bit length (mode indicators, character count indicators, ECI headers, Hanzi subset
+    indicators, Structured Append header, payload) is the ISO bit count of the specification -/
+theorem bitLength_eq_needed (segs : List Model.Segment) (v : Int) (eci sa : Bool)
+    (hwf : ∀ x ∈ segs, WF x) (h1 : -3 ≤ v) (h2 : v ≤ 40) :
+    Model.bitLengthWithOverhead segs v eci sa = Spec.neededBits v (segs.map (info eci)) sa := by
+  exact Proofs.Sizing.bitLength_eq_needed segs v eci sa hwf h1 h2
+
+/-- **first fit**: `find_version` returns the first admissible version (order M1 < … < M4 < 1 < … < 40)
+    whose capacity at the requested level (default L) holds the content, and raises
+    DataOverflowError exactly when no admissible version fits.  (`encode` maps eci ∧ micro = None to
+    micro = False before calling it: hypothesis `hE`.) -/
+theorem findVersion_is_first_fit (segs : List Model.Segment) (error : Option Nat) (eci : Bool)
+    (micro : Option Bool) (sa : Bool)
+    (hwf : ∀ x ∈ segs, WF x) (hne : segs ≠ [])
+    (herr : error ∈ [none, some 0, some 1, some 2, some 3])
+    (hE : eci = true → micro = some false) :
+    Model.findVersion segs error eci micro sa =
+      match Spec.expectedVersion micro eci error (segs.map (info eci)) sa with
+      | some v => .ok v
+      | none => .error Model.PyErr.dataOverflow := by
+  exact Proofs.Sizing.findVersion_is_first_fit segs error eci micro sa hwf hne hE
+
+/-- **never truncated**: whenever `encode` returns a symbol, the content bits (with all headers) are
+    within the capacity of the returned version and level.
+    NOTE: this proof obligation exposed a real defect of the pinned code: `encode` only compared the
+    requested version with the guessed (minimal) one, but content that fits version g need not fit a
+    requested version v > g (character count indicators grow per segment; witness: 97 one-character
+    parts alternating byte / numeric, error L, version 10: 2332 bits > capacity 2192, silently
+    truncated).  The statement is provable only with the repaired `encode` (capacity check for
+    `v != guessed`). -/
+theorem encode_never_truncates (parts : List Model.Part) (error : Option Nat) (version : Option Int)
+    (mode : Option Nat) (mask : Option Nat) (eci : Bool) (micro : Option Bool) (boost : Bool)
+    (eciNumber : String → Option Nat) (c : Model.Code)
+    (h : Model.encode parts error version mode mask eci micro boost eciNumber = .ok c) :
+    ∃ need cap, Model.bitLengthWithOverhead c.segments c.version eci false = some need
+      ∧ Model.capacity c.version c.error = some cap ∧ need ≤ cap := by
+  exact Proofs.Sizing.encode_never_truncates parts error version mode mask eci micro boost eciNumber c h
+
+/-- **requested version**: with `version = some v` the result has exactly version `v` -/
+theorem encode_requested_version (parts : List Model.Part) (error : Option Nat) (v : Int)
+    (mode : Option Nat) (mask : Option Nat) (eci : Bool) (micro : Option Bool) (boost : Bool)
+    (eciNumber : String → Option Nat) (c : Model.Code)
+    (h : Model.encode parts error (some v) mode mask eci micro boost eciNumber = .ok c) :
+    c.version = v := by
+  exact Proofs.Sizing.encode_requested_version parts error v mode mask eci micro boost eciNumber c h
+
+/-- Table 3 as segno holds it = frozen ISO copy (so `cciLen` and `Spec.cciBits` agree) -/
+theorem cci_table_is_iso : Gen.CHAR_COUNT_INDICATOR_LENGTH = Spec.cciTable := by
+  exact Proofs.Sizing.cci_table_eq
+
 end Props.C04
+
+#print axioms Props.C04.makeSegment_wf
+#print axioms Props.C04.addSegment_wf
+#print axioms Props.C04.prepareData_wf
+#print axioms Props.C04.bitLength_eq_needed
+#print axioms Props.C04.findVersion_is_first_fit
+#print axioms Props.C04.encode_never_truncates
+#print axioms Props.C04.encode_requested_version
+#print axioms Props.C04.cci_table_is_iso
